@@ -38,7 +38,7 @@ NVEC = 384
 def singular_points(mech, vt):
     return {"HH": [-40.0, -55.0], "Na": [vt + 13.0, vt + 40.0], "K": [vt + 15.0], "CaL": [-27.0],
             "Km": [-35.0], "CaT": [-81.0, -84.0], "Leak": [0.0],
-            "IonotropicSynapse": [-35.0], "TestSynapse": [-35.0]}[mech]
+            "IonotropicSynapse": [-35.0], "TestSynapse": [-35.0], "TanhRateSynapse": [-70.0]}[mech]
 
 
 def make_voltages(rng, mech, vclass, vt, n):
